@@ -37,3 +37,22 @@ Definition vocab_of (d : mdomain) : vocab :=
 Definition mdomain_of (v : vocab) : mdomain :=
   {| d_name := v_name v; d_reqs := []; d_types := v_types v; d_consts := v_consts v; d_preds := v_preds v;
      d_funcs := v_funcs v; d_actions := [] |}.
+
+(* ---------- initial fluents with repeated arguments that the library represents correctly ----------
+   [canon args]: what PDDLFunction.state_representation prints for a fluent read with the arguments [args]
+   (repeated names first); [kappa]: the key it is stored under (its distinct arguments).
+   [safe_repeats]: every fluent is written in the printed form and two assignments of one function with the same
+   distinct arguments are the same fluent.  Used by the theorems C05_faithful_safe / C09_roundtrip and, negated,
+   as the input class of finding D07. *)
+Definition canon (args : list string) : list string :=
+  flat_map (fun kv : string * nat => repeat (fst kv) (snd kv)) (repeating args)
+  ++ filter (fun p => negb (dmem (repeating args) p)) (distinct args).
+
+Definition kappa (a : atom) : fkey := (fst a, distinct (snd a)).
+
+Definition safe_repeats (sp : sproblem) : bool :=
+  forallb (fun fl : atom * string => strs_eqb (canon (snd (fst fl))) (snd (fst fl))) (sp_fluents sp)
+  && forallb (fun fl1 : atom * string =>
+       forallb (fun fl2 : atom * string =>
+                  negb (fkey_eqb (kappa (fst fl1)) (kappa (fst fl2))) || atom_eqb (fst fl1) (fst fl2)) (sp_fluents sp))
+       (sp_fluents sp).
